@@ -135,8 +135,41 @@ func (m *Msg) Enc() string {
 	return sb.String()
 }
 
-// BuildVal constructs the library value through the described route.
+// rejectTick picks which unpopulated values are offered a wrongly typed argument.
+var rejectTick int
+
+// BuildVal constructs the library value through the described route. A value that is to stay
+// unpopulated is, one time in three, first offered a Set with an argument of the wrong type: the call
+// is refused and the value is as unpopulated as before.
 func (v *Val) BuildVal() fix.Value {
+	x := v.buildVal()
+	if !v.Valid && v.Route == "" && v.Kind != 'R' {
+		rejectTick++
+		if rejectTick%3 == 0 {
+			var wrong interface{}
+			switch v.Kind {
+			case 'I':
+				wrong = []interface{}{int64(100), uint64(7), "12"}[rejectTick%9/3]
+			case 'U':
+				wrong = []interface{}{int(3), int64(3), "3"}[rejectTick%9/3]
+			case 'F':
+				wrong = []interface{}{"1.5", int(2), float32(1.5)}[rejectTick%9/3]
+			case 'S':
+				wrong = []interface{}{5, []byte("x"), true}[rejectTick%9/3]
+			case 'B':
+				wrong = []interface{}{"Y", 1, []byte("N")}[rejectTick%9/3]
+			case 'T':
+				wrong = []interface{}{"20200101-00:00:00.000", int64(0), 1.5}[rejectTick%9/3]
+			}
+			if wrong != nil {
+				_ = x.Set(wrong)
+			}
+		}
+	}
+	return x
+}
+
+func (v *Val) buildVal() fix.Value {
 	switch v.Kind {
 	case 'S':
 		switch v.Route {
